@@ -1,13 +1,17 @@
 (* C18 — Fully preemptive FP, non-preemptive FP and FIFO bounds are attained.  Statements only.
-   For task sets whose arrival curves are exact and realisable — Periodic and Sporadic (with release jitter) —
-   the returned bound R >= 1 is attained: there is a compliant job set and a legal schedule in which some job
-   (for FP: of the analysed task) completes within R but not within R - 1.  With the soundness theorems
-   (C01, C03) the bounds are therefore exact.  Not covered by a theorem: auto-extrapolating delta-min curves
-   (exercised by the simulation oracle of this check). *)
+   For task sets whose arrival curves are exact and realisable — Periodic, Sporadic (with release jitter) and
+   auto-extrapolating delta-min curves ExtrapAB d with a realisable (well-formed, super-additive) vector d
+   (exact_task', Proofs/TightnessExtrap.v; plateau-ended vectors included) — the returned bound R >= 1 is attained:
+   there is a compliant job set and a legal schedule in which some job (for FP: of the analysed task) completes
+   within R but not within R - 1.  With the soundness theorems (C01, C03) the bounds are therefore exact.
+   The first three theorems are the Periodic/Sporadic versions (Proofs/Tightness.v), the last three the general ones;
+   super-additivity is needed (only) for the maximal-rate release sequence to be admissible
+   (dense_extrap_needs_superadditive). *)
 From Coq Require Import Arith NArith List Lia Bool.
 From RTA.Model Require Import Base Arrival Wcet Demand Eval.
 From RTA.Spec Require Import Sched TaskModel Policies.
-From RTA.Proofs Require Import FifoEndToEnd FpSound Tightness.
+From RTA.Model Require Import WellFormed.
+From RTA.Proofs Require Import FifoEndToEnd FpSound Tightness TightnessExtrap.
 
 Theorem C18_fifo_bound_attained : forall dbg (tasks : list task) limit R,
   Forall (fun tk => exact_task tk /\ 1 <= snd tk) tasks -> tasks <> [] -> 1 <= R ->
@@ -38,3 +42,36 @@ Theorem C18_fp_nonpreemptive_bound_attained : forall dbg (tasks : list task) i l
      (k < length jobs)%nat /\ tsk jobs k = i /\
      completes_within jobs sched k (N.to_nat R) /\ ~ completes_within jobs sched k (N.to_nat R - 1).
 Proof. exact fp_nonpreemptive_bound_attained. Qed.
+
+(* ---- the same three statements for the extended class: Periodic | Sporadic | ExtrapAB d with realisable d ---- *)
+Theorem C18_exact_task_class : forall tk, exact_task' tk <-> exact_task tk \/ (exists d, fst tk = ExtrapAB d /\ realisable d).
+Proof. intros tk. reflexivity. Qed.
+
+Theorem C18_fifo_bound_attained_extrap : forall dbg (tasks : list task) limit R,
+  Forall (fun tk => exact_task' tk /\ 1 <= snd tk) tasks -> tasks <> [] -> 1 <= R ->
+  e_fifo dbg (Agg (map rb_of tasks)) limit = ROk R ->
+  exists jobs sched k, valid jobs sched /\ work_conserving jobs sched /\ fifo_policy jobs sched /\
+     respects_curves tasks jobs /\ respects_costs tasks jobs /\ (k < length jobs)%nat /\
+     completes_within jobs sched k (N.to_nat R) /\ ~ completes_within jobs sched k (N.to_nat R - 1).
+Proof. exact fifo_bound_attained_extrap. Qed.
+
+Theorem C18_fp_preemptive_bound_attained_extrap : forall dbg (tasks : list task) i prio limit R,
+  Forall (fun tk => exact_task' tk /\ 1 <= snd tk) tasks -> (i < length tasks)%nat ->
+  (forall a b, (a < length tasks)%nat -> (b < length tasks)%nat -> prio a = prio b -> a = b) -> 1 <= R ->
+  e_fp_fp dbg (RBF (ab_i tasks i) (Scalar (C tasks i))) (hp_rbs tasks i prio) limit = ROk R ->
+  exists jobs sched k, valid jobs sched /\ work_conserving jobs sched /\ respects_curves tasks jobs /\ respects_costs tasks jobs /\
+     legal jobs sched (fp_hp jobs prio) (fun _ _ => true) /\ (k < length jobs)%nat /\ tsk jobs k = i /\
+     completes_within jobs sched k (N.to_nat R) /\ ~ completes_within jobs sched k (N.to_nat R - 1).
+Proof. exact fp_preemptive_bound_attained_extrap. Qed.
+
+Theorem C18_fp_nonpreemptive_bound_attained_extrap : forall dbg (tasks : list task) i l prio limit B R,
+  Forall (fun tk => exact_task' tk /\ 1 <= snd tk) tasks -> (i < length tasks)%nat -> (l < length tasks)%nat ->
+  (prio i < prio l)%nat -> snd (nth l tasks (Never, 0)) = B + 1 ->
+  (forall a b, (a < length tasks)%nat -> (b < length tasks)%nat -> prio a = prio b -> a = b) -> 1 <= R ->
+  e_fp_np dbg (ab_i tasks i) (C tasks i) B (hp_rbs tasks i prio) limit = ROk R ->
+  exists jobs sched pp k, valid jobs sched /\ work_conserving jobs sched /\ respects_curves tasks jobs /\ respects_costs tasks jobs /\
+     fully_nonpreemptive jobs pp /\ legal jobs sched (fp_hp jobs prio) pp /\
+     (forall k', (k' < length jobs)%nat -> (prio i < prio (tsk jobs k'))%nat -> (cost jobs k' <= N.to_nat B + 1)%nat) /\
+     (k < length jobs)%nat /\ tsk jobs k = i /\
+     completes_within jobs sched k (N.to_nat R) /\ ~ completes_within jobs sched k (N.to_nat R - 1).
+Proof. exact fp_nonpreemptive_bound_attained_extrap. Qed.
